@@ -41,6 +41,8 @@ CLAIMED['C05'] = ("exploration", 'rapid-generated include trees + exhaustive cor
 CLAIMED['C08'] = ("exploration", 'bounded exhaustive enumeration of source-presence patterns x value types x Fill kinds x read positions + rapid op histories on a template tree; reference precedence model', 'All 2^6 presence patterns of a key over {front-matter, Fill, Assign, data/a.yml, data/b.yml, theme.yml} x five value types x map/struct/pointer Fill arguments (field by name, by tag, Go name of a tagged field) x five read positions are compared with the first-present-source model; rapid histories of New/Load/Fill/Assign/Render/Get on a tree check that children never disturb parents or siblings. Exhaustive for family A within its bound.', 'An Assign before a later Fill of other keys is unspecified (Fill sets all variables) and not asserted. Open finding: Get() returns an Assign value that front-matter overrides in renders.', 'DESIGN.md §6 C08')
 CLAIMED['C13'] = ("exploration", 'typed expression-tree and pipe-chain generators (rapid) + bounded enumeration; reference evaluator written for the check; position-agreement (metamorphic) oracle', "Typed expression trees (depth<=3: paths, literals, comparison, logical, arithmetic, ternary, calls) are rendered in {{ }}, static and bound attributes, v-if, v-else-if and v-show; the printed value must equal the check's own evaluator and all positions must agree. Pipe chains up to length 3 over built-ins and 18 registered functions of every parameter shape must equal direct left-to-right application with the documented conversions; unknown function, wrong arity, impossible conversion and returned errors must fail the render with an error naming the function. Sampled, with an exhaustive depth-1 core.", "Value of '/' and '!' on non-bools, narrowing conversions, bare literals as whole expressions and built-ins outside their documented input type are unspecified and only compared across positions.", 'DESIGN.md §6 C13')
 CLAIMED['C17'] = ("exploration", 'stateful model-based testing: exhaustive short op sequences + rapid long ones against a slice-of-maps reference model; path resolution checked against plain Go indexing done by the generator', 'Every op sequence up to length 3 (quick) / 4 (thorough) over a 17-op alphabet and six root-data shapes, and rapid sequences up to 30 ops, are run against the real Stack and a reference model, comparing Lookup/Resolve/EnvMap for every name after every op and the independence of copies. Generated nested values with a path obtained by walking the value with ordinary Go indexing must resolve to that element in dotted and bracketed spellings; invalid paths must report absence without panicking. Exhaustive for short sequences and paths.', 'Presence of nil-valued bindings, Pop clearing a caller map, ForEach order over maps and best-effort Get* conversions are unspecified and unasserted.', 'DESIGN.md §6 C17')
+CLAIMED['C07'] = ('fault_enumeration', 'bounded exhaustive enumeration of layout graphs (all graphs over 4-5 files, every chain length/ending/cycle shape, chains of 90..150 links) + rapid larger graphs; reference layout walker; step budgets (file opens, output bytes)', 'All layout graphs over 4 (quick) / 5 (thorough) layout files x page options, every chain length 0..5 with every ending (ends, missing target, back-edge to each earlier file or itself), synthetic chains up to 150 links, relative-vs-layouts/ shadowing and presence/absence of layouts/base.vuego are rendered on a budgeted in-memory filesystem and compared with a reference walker: nesting of markers (outermost layout outside), content passed link to link, page data and front-matter visible in layouts, the default applied only when due, exactly one document written, and for cycles / missing targets / more than 100 links an error with zero bytes written and no runaway. Exhaustive within the bound.', 'The exact off-by-one of the 100-link limit is not pinned (91..100 links may go either way, cleanly). Which of page front-matter or Fill wins inside a layout lacking the key, and layout keys supplied by theme.yml/data files, are not asserted.', 'DESIGN.md §6 C07')
+CLAIMED['C19'] = ('exploration', "corpus (all repository .vuego files and fenced doc snippets) + rapid-generated DOM trees serialised by the check's own always-escaping serialiser + native go fuzz of raw strings; oracles: idempotence (bytes) and HTML5-parse equivalence of Format(x) and x", 'Every .vuego file of the repository and every html/vue snippet of the docs, plus generated fragments, table fragments and full documents (block/inline/void/table/raw-text elements, attribute values with quotes, entities, operators, newlines, vuego directive attributes, mustaches containing < > & and quotes, front-matter, doctype spellings, CRLF) are formatted: Format(Format(x)) must equal Format(x) byte for byte, and the HTML5 parse of Format(x) must have the same elements, attribute names, attribute values up to whitespace collapsing, the same non-whitespace text, the same mustache expressions, and the front-matter and doctype byte for byte. Thorough adds 90 s of native fuzzing for panic-freedom and idempotence. Sampled.', "Layout, indentation, comments and attribute order are not asserted. Inputs on which Format returns an error are skipped (counted) unless they are repository files. Open finding: escaped '<' inside a mustache is written back raw.", 'DESIGN.md §6 C19')
 NOT_YET = "check under construction in this session; not claimed until it is built and silent on the unchanged tree"
 
 def main():
